@@ -468,6 +468,8 @@ def configs(tier):
         add(cache=cache, tol=0, K=3, hash="perfect", ops0=["lin_noexec"], ops=["exec", "lin", "lin_noexec"])
         add(cache=cache, tol=0.25, K=3, hash="perfect", ops0=["lin_noexec"], ops=["exec", "lin", "lin_noexec"])
         add(cache=cache, tol=0.25, K=3, hash="perfect", ops0=["exec"], ops1=["lin_noexec"], ops=["exec", "lin", "lin_noexec"])
+        # ... followed by calls that re-use the caller's arrays after writing new values into them in place
+        add(cache=cache, tol=0, K=3, hash="perfect", ops0=["lin_noexec"], ops=["lin_reuse", "exec_reuse", "lin"])
         # partial Jacobian requests, Jacobian computed by _run, self-coupled output written in place
         add(cache=cache, tol=0, K=3, hash="perfect", ops=["exec", "lin", "lin_part"])
         add(cache=cache, tol=0, K=3, hash="perfect", variant="jac_in_run", ops=["exec", "lin", "exec_reuse"])
